@@ -455,6 +455,99 @@ for (pre, tgt, T, mt, has_array) in _SER:
       roundtrip='eq')
 
 
+
+# ------------------------------------------------------------------ auto-discovered members
+# (tools/py2lean/discover.py; translator-validated by the kernel correspondence)
+K('a_v2d_min', 'geometry2d.pointvector:Vector2D.min', [p('x', W2)], 'V2', 'Auto', [])
+K('a_v2d_max', 'geometry2d.pointvector:Vector2D.max', [p('x', W2)], 'V2', 'Auto', [])
+K('a_v2d_angle', 'geometry2d.pointvector:Vector2D.angle', [p('x', W2), p('other', W2)], 'S', 'Auto', ['C16'])
+K('a_v2d_angle_clockwise', 'geometry2d.pointvector:Vector2D.angle_clockwise', [p('x', W2), p('other', W2)], 'S', 'Auto', ['C16'])
+K('a_p2d_min', 'geometry2d.pointvector:Point2D.min', [p('x', P2)], 'V2', 'Auto', [])
+K('a_p2d_max', 'geometry2d.pointvector:Point2D.max', [p('x', P2)], 'V2', 'Auto', [])
+K('a_p2d_magnitude', 'geometry2d.pointvector:Point2D.magnitude', [p('x', P2)], 'S', 'Auto', ['C16'])
+K('a_p2d_magnitude_squared', 'geometry2d.pointvector:Point2D.magnitude_squared', [p('x', P2)], 'S', 'Auto', ['C16'])
+K('a_p2d_is_zero', 'geometry2d.pointvector:Point2D.is_zero', [p('x', P2), S('tolerance', 'tol')], 'B', 'Auto', ['C16'])
+K('a_p2d_is_equivalent', 'geometry2d.pointvector:Point2D.is_equivalent', [p('x', P2), p('other', P2), S('tolerance', 'tol')], 'B', 'Auto', ['C13'])
+K('a_p2d_normalize', 'geometry2d.pointvector:Point2D.normalize', [p('x', P2)], 'V2', 'Auto', ['C16'])
+K('a_p2d_reverse', 'geometry2d.pointvector:Point2D.reverse', [p('x', P2)], 'V2', 'Auto', ['C16'])
+K('a_p2d_dot', 'geometry2d.pointvector:Point2D.dot', [p('x', P2), p('other', P2)], 'S', 'Auto', ['C16'])
+K('a_p2d_determinant', 'geometry2d.pointvector:Point2D.determinant', [p('x', P2), p('other', P2)], 'S', 'Auto', ['C16'])
+K('a_p2d_cross', 'geometry2d.pointvector:Point2D.cross', [p('x', P2)], 'V2', 'Auto', ['C16'])
+K('a_p2d_angle', 'geometry2d.pointvector:Point2D.angle', [p('x', P2), p('other', P2)], 'S', 'Auto', ['C16'])
+K('a_p2d_angle_counterclockwise', 'geometry2d.pointvector:Point2D.angle_counterclockwise', [p('x', P2), p('other', P2)], 'S', 'Auto', ['C16'])
+K('a_p2d_angle_clockwise', 'geometry2d.pointvector:Point2D.angle_clockwise', [p('x', P2), p('other', P2)], 'S', 'Auto', ['C16'])
+K('a_v3d_min', 'geometry3d.pointvector:Vector3D.min', [p('x', W3)], 'V3', 'Auto', [])
+K('a_v3d_max', 'geometry3d.pointvector:Vector3D.max', [p('x', W3)], 'V3', 'Auto', [])
+K('a_v3d_is_zero', 'geometry3d.pointvector:Vector3D.is_zero', [p('x', W3), S('tolerance', 'tol')], 'B', 'Auto', ['C16'])
+K('a_v3d_angle', 'geometry3d.pointvector:Vector3D.angle', [p('x', W3), p('other', W3)], 'S', 'Auto', ['C16'])
+K('a_p3d_min', 'geometry3d.pointvector:Point3D.min', [p('x', P3)], 'V3', 'Auto', [])
+K('a_p3d_max', 'geometry3d.pointvector:Point3D.max', [p('x', P3)], 'V3', 'Auto', [])
+K('a_p3d_magnitude', 'geometry3d.pointvector:Point3D.magnitude', [p('x', P3)], 'S', 'Auto', ['C16'])
+K('a_p3d_magnitude_squared', 'geometry3d.pointvector:Point3D.magnitude_squared', [p('x', P3)], 'S', 'Auto', ['C16'])
+K('a_p3d_is_zero', 'geometry3d.pointvector:Point3D.is_zero', [p('x', P3), S('tolerance', 'tol')], 'B', 'Auto', ['C16'])
+K('a_p3d_is_equivalent', 'geometry3d.pointvector:Point3D.is_equivalent', [p('x', P3), p('other', P3), S('tolerance', 'tol')], 'B', 'Auto', ['C13'])
+K('a_p3d_normalize', 'geometry3d.pointvector:Point3D.normalize', [p('x', P3)], 'V3', 'Auto', ['C16'])
+K('a_p3d_reverse', 'geometry3d.pointvector:Point3D.reverse', [p('x', P3)], 'V3', 'Auto', ['C16'])
+K('a_p3d_dot', 'geometry3d.pointvector:Point3D.dot', [p('x', P3), p('other', P3)], 'S', 'Auto', ['C16'])
+K('a_p3d_cross', 'geometry3d.pointvector:Point3D.cross', [p('x', P3), p('other', P3)], 'V3', 'Auto', ['C16'])
+K('a_p3d_angle', 'geometry3d.pointvector:Point3D.angle', [p('x', P3), p('other', P3)], 'S', 'Auto', ['C16'])
+K('a_seg2d_endpoints', 'geometry2d.line:LineSegment2D.endpoints', [p('x', SEG2)], 'List V2', 'Auto', ['C16'])
+K('a_seg2d_vertices', 'geometry2d.line:LineSegment2D.vertices', [p('x', SEG2)], 'List V2', 'Auto', ['C16'])
+K('a_seg2d_is_equivalent', 'geometry2d.line:LineSegment2D.is_equivalent', [p('x', SEG2), p('other', SEG2), S('tolerance', 'tol')], 'B', 'Auto', ['C13'])
+K('a_seg2d_intersect_line_ray', 'geometry2d.line:LineSegment2D.intersect_line_ray', [p('x', SEG2), p('line_ray', SEG2)], 'Opt V2', 'Auto', ['C11'])
+K('a_seg2d_closest_point', 'geometry2d.line:LineSegment2D.closest_point', [p('x', SEG2), p('point', P2)], 'V2', 'Auto', ['C12'])
+K('a_seg2d_is_parallel', 'geometry2d.line:LineSegment2D.is_parallel', [p('x', SEG2), p('line_ray', SEG2), S('angle_tolerance', 'tol')], 'B', 'Auto', ['C16'])
+K('a_seg2d_is_colinear', 'geometry2d.line:LineSegment2D.is_colinear', [p('x', SEG2), p('line_ray', SEG2), S('tolerance', 'tol')], 'B', 'Auto', ['C16'])
+K('a_ray2d_p', 'geometry2d.ray:Ray2D.p', [p('x', RAY2)], 'V2', 'Auto', ['C16'])
+K('a_ray2d_v', 'geometry2d.ray:Ray2D.v', [p('x', RAY2)], 'V2', 'Auto', ['C16'])
+K('a_ray2d_center', 'geometry2d.ray:Ray2D.center', [p('x', RAY2)], 'V2', 'Auto', ['C10'])
+K('a_ray2d_closest_point', 'geometry2d.ray:Ray2D.closest_point', [p('x', RAY2), p('point', P2)], 'V2', 'Auto', ['C12'])
+K('a_ray2d_distance_to_point', 'geometry2d.ray:Ray2D.distance_to_point', [p('x', RAY2), p('point', P2)], 'S', 'Auto', ['C12'])
+K('a_ray2d_intersect_line_ray', 'geometry2d.ray:Ray2D.intersect_line_ray', [p('x', RAY2), p('line_ray', SEG2)], 'Opt V2', 'Auto', ['C11'])
+K('a_ray2d_is_parallel', 'geometry2d.ray:Ray2D.is_parallel', [p('x', RAY2), p('line_ray', SEG2), S('angle_tolerance', 'tol')], 'B', 'Auto', ['C16'])
+K('a_ray2d_is_colinear', 'geometry2d.ray:Ray2D.is_colinear', [p('x', RAY2), p('line_ray', SEG2), S('tolerance', 'tol')], 'B', 'Auto', ['C16'])
+K('a_seg3d_endpoints', 'geometry3d.line:LineSegment3D.endpoints', [p('x', SEG3)], 'List V3', 'Auto', ['C16'])
+K('a_seg3d_vertices', 'geometry3d.line:LineSegment3D.vertices', [p('x', SEG3)], 'List V3', 'Auto', ['C16'])
+K('a_seg3d_is_horizontal', 'geometry3d.line:LineSegment3D.is_horizontal', [p('x', SEG3), S('tolerance', 'tol')], 'B', 'Auto', ['C16'])
+K('a_seg3d_is_vertical', 'geometry3d.line:LineSegment3D.is_vertical', [p('x', SEG3), S('tolerance', 'tol')], 'B', 'Auto', ['C16'])
+K('a_seg3d_is_parallel', 'geometry3d.line:LineSegment3D.is_parallel', [p('x', SEG3), p('line_ray', SEG3), S('angle_tolerance', 'tol')], 'B', 'Auto', ['C16'])
+K('a_seg3d_is_colinear', 'geometry3d.line:LineSegment3D.is_colinear', [p('x', SEG3), p('line_ray', SEG3), S('tolerance', 'tol')], 'B', 'Auto', ['C16'])
+K('a_seg3d_closest_point', 'geometry3d.line:LineSegment3D.closest_point', [p('x', SEG3), p('point', P3)], 'V3', 'Auto', ['C12'])
+K('a_seg3d_intersect_plane', 'geometry3d.line:LineSegment3D.intersect_plane', [p('x', SEG3), p('plane', PL)], 'Opt V3', 'Auto', ['C11'])
+K('a_ray3d_rotate_xy', 'geometry3d.ray:Ray3D.rotate_xy', [p('x', RAY3), S('angle', 'angle'), p('origin', P3)], 'LR3', 'Auto', ['C02'])
+K('a_ray3d_p', 'geometry3d.ray:Ray3D.p', [p('x', RAY3)], 'V3', 'Auto', ['C16'])
+K('a_ray3d_v', 'geometry3d.ray:Ray3D.v', [p('x', RAY3)], 'V3', 'Auto', ['C16'])
+K('a_ray3d_center', 'geometry3d.ray:Ray3D.center', [p('x', RAY3)], 'V3', 'Auto', ['C10'])
+K('a_ray3d_is_parallel', 'geometry3d.ray:Ray3D.is_parallel', [p('x', RAY3), p('line_ray', SEG3), S('angle_tolerance', 'tol')], 'B', 'Auto', ['C16'])
+K('a_ray3d_is_colinear', 'geometry3d.ray:Ray3D.is_colinear', [p('x', RAY3), p('line_ray', SEG3), S('tolerance', 'tol')], 'B', 'Auto', ['C16'])
+K('a_ray3d_closest_point', 'geometry3d.ray:Ray3D.closest_point', [p('x', RAY3), p('point', P3)], 'V3', 'Auto', ['C12'])
+K('a_ray3d_distance_to_point', 'geometry3d.ray:Ray3D.distance_to_point', [p('x', RAY3), p('point', P3)], 'S', 'Auto', ['C12'])
+K('a_ray3d_intersect_plane', 'geometry3d.ray:Ray3D.intersect_plane', [p('x', RAY3), p('plane', PL)], 'Opt V3', 'Auto', ['C11'])
+K('a_plane_azimuth', 'geometry3d.plane:Plane.azimuth', [p('x', PL)], 'S', 'Auto', ['C16'])
+K('a_plane_altitude', 'geometry3d.plane:Plane.altitude', [p('x', PL)], 'S', 'Auto', ['C16'])
+K('a_plane_tilt', 'geometry3d.plane:Plane.tilt', [p('x', PL)], 'S', 'Auto', ['C16'])
+K('a_plane_min', 'geometry3d.plane:Plane.min', [p('x', PL)], 'V3', 'Auto', [])
+K('a_plane_max', 'geometry3d.plane:Plane.max', [p('x', PL)], 'V3', 'Auto', [])
+K('a_plane_closest_points_between_line', 'geometry3d.plane:Plane.closest_points_between_line', [p('x', PL), p('line_ray', SEG3)], 'Opt (Tup V3 V3)', 'Auto', ['C12'])
+K('a_plane_distance_to_line', 'geometry3d.plane:Plane.distance_to_line', [p('x', PL), p('line_ray', SEG3)], 'S', 'Auto', ['C12'])
+K('a_plane_intersect_line_ray', 'geometry3d.plane:Plane.intersect_line_ray', [p('x', PL), p('line_ray', SEG3)], 'Opt V3', 'Auto', ['C11'])
+K('a_plane_intersect_plane', 'geometry3d.plane:Plane.intersect_plane', [p('x', PL), p('plane', PL)], 'Opt LR3', 'Auto', ['C11'])
+K('a_plane_is_coplanar_tolerance', 'geometry3d.plane:Plane.is_coplanar_tolerance', [p('x', PL), p('plane', PL), S('tolerance', 'tol'), S('angle_tolerance', 'tol')], 'B', 'Auto', ['C16'])
+K('a_arc2d_point_at_length', 'geometry2d.arc:Arc2D.point_at_length', [p('x', A2), S('length', 'pos')], 'V2', 'Auto', ['C17'])
+K('a_arc2d_distance_to_point', 'geometry2d.arc:Arc2D.distance_to_point', [p('x', A2), p('point', P2)], 'S', 'Auto', ['C12'])
+K('a_arc2d_intersect_line_infinite', 'geometry2d.arc:Arc2D.intersect_line_infinite', [p('x', A2), p('line_ray', SEG2)], 'PtList V2', 'Auto', ['C11'])
+K('a_arc3d_angle', 'geometry3d.arc:Arc3D.angle', [p('x', A3)], 'S', 'Auto', ['C16'])
+K('a_arc3d_area', 'geometry3d.arc:Arc3D.area', [p('x', A3)], 'S', 'Auto', ['C16'])
+K('a_arc3d_is_circle', 'geometry3d.arc:Arc3D.is_circle', [p('x', A3)], 'B', 'Auto', ['C16'])
+K('a_arc3d_is_inverted', 'geometry3d.arc:Arc3D.is_inverted', [p('x', A3)], 'B', 'Auto', ['C16'])
+K('a_arc3d_point_at_angle', 'geometry3d.arc:Arc3D.point_at_angle', [p('x', A3), S('angle', 'angle')], 'V3', 'Auto', ['C17'])
+K('a_arc3d_point_at_length', 'geometry3d.arc:Arc3D.point_at_length', [p('x', A3), S('length', 'pos')], 'V3', 'Auto', ['C17'])
+K('a_arc3d_distance_to_point', 'geometry3d.arc:Arc3D.distance_to_point', [p('x', A3), p('point', P3)], 'S', 'Auto', ['C12'])
+K('a_cone_base', 'geometry3d.cone:Cone.base', [p('x', CON)], 'Arc3S', 'Auto', ['C16'])
+K('a_cyl_base_bottom', 'geometry3d.cylinder:Cylinder.base_bottom', [p('x', CYL)], 'Arc3S', 'Auto', ['C16'])
+K('a_cyl_base_top', 'geometry3d.cylinder:Cylinder.base_top', [p('x', CYL)], 'Arc3S', 'Auto', ['C16'])
+
+
 def all_kernels():
     import copy
     return copy.deepcopy(KERNELS)
